@@ -1,4 +1,5 @@
 import VOPyVerif.Proofs.StepsAuer
+import VOPyVerif.Proofs.StepsCover
 /-!
 # C03 — a design enters P exactly when no active region can still ε-cover it; U; Auer's hold-back
 
@@ -507,6 +508,135 @@ example : auerPareto 0 (fun i => if i = 0 then [0] else if i = 1 then [1] else [
 than the widths in both directions → passes both stages and enters `P`. -/
 example : auerPareto 0 (fun i => if i = 0 then [0, 0] else if i = 1 then [1, 1] else [10, -10])
     (fun _ => [1, 1]) [0, 1, 2] [] = ([0, 1], [2]) := by decide +kernel
+
+/-! ## End to end with the geometry of C10 (no oracle left for rectangles and balls)
+
+Here the oracle is the EXECUTABLE exact predicate — `Steps.rectCov` / `Steps.ballCov`: "the model of
+`is_covered` answers `1`" (`Covered.rectIsCovered`, `Covered.ballIsCovered`, the functions the
+drivers run) — and the bridge hypothesis of the `*_semantic` theorems above is discharged by the
+decision theorems of C10 (`rect_isCovered_iff`, `ball_isCovered_iff`: Fourier–Motzkin / active-set
+completeness, never `inconclusive`).  Regions and points are over `ℝ` (`Covered.box`, `Covered.ball`,
+`C10.Coverable`: `∃ z ∈ R_i, ∃ z' ∈ R_j, ∀ facets w, w·(z' − z − s) ≥ 0`, i.e. `z' ≽ z ⊕ s`;
+`C10.CoverableFacet`: `w_n·(z' − z) ≥ t_n`).
+
+General ellipsoids (arbitrary `Σ`: PaVeBaGP type "DE", PaVeBaPartialGP "hyperellipsoid") stay
+parametric — `paveba_entry_semantic`, `paveba_useful_semantic` with the hypothesis `hC10` — because
+C10 proves certificate *soundness* for them (`ell_verdict_sound`), not a decision procedure. -/
+
+/-- **P-entry, rectangular regions (PaVeBaGP type "IH", PaVeBaPartialGP "hyperrectangle"), real
+points.**  Design `k` displays the box `[L k, U k]` in `m` objectives, `W` has `m` columns, the
+slack is handed over as the code does (a scalar or an `m`-vector; `s` is its broadcast form, applied
+as a shift in objective space).  `S` is the candidate set after discarding.  A design enters `P` in
+this round exactly when it is a candidate and NO other active design's displayed box contains a
+point `z'` such that `z' ≽ z ⊕ s` for some point `z` of its own box. -/
+theorem paveba_rect_entry_real (W : Mat) (L U : Nat → Vec) (slack s : Vec) (m : Nat)
+    (hL : ∀ k, (L k).length = m) (hU : ∀ k, (U k).length = m) (hm : Covered.ncols W = m)
+    (hW : ∀ w ∈ W, w.length = m) (hs : Covered.expandSlack m slack = some s)
+    (S P Us : List Nat) (i : Nat) :
+    (i ∈ (pavebaPareto (rectCov W L U slack) S P Us).2 ∧ i ∉ P) ↔
+      (i ∈ S ∧ i ∉ P ∧ ∀ j, (j ∈ S ∨ j ∈ Us) → j ≠ i →
+        ¬ VOPy.C10.Coverable (Covered.box (L i) (U i)) (Covered.box (L j) (U j)) W s) := by
+  rw [paveba_pareto_new_iff]
+  have h : ∀ j, rectCov W L U slack i j = false ↔
+      ¬ VOPy.C10.Coverable (Covered.box (L i) (U i)) (Covered.box (L j) (U j)) W s := by
+    intro j; rw [← rectCov_iff W L U slack s m hL hU hm hW hs i j]; simp
+  simp only [h]
+
+/-- **Useful set, rectangular regions, real points.**  `U'` is exactly the set of members `p` of `P`
+for which some remaining candidate `c ∈ S` has a point `z` in its box and `p`'s box a point `z'`
+with `z' ≽ z ⊕ s`. -/
+theorem paveba_rect_useful_real (W : Mat) (L U : Nat → Vec) (slack s : Vec) (m : Nat)
+    (hL : ∀ k, (L k).length = m) (hU : ∀ k, (U k).length = m) (hm : Covered.ncols W = m)
+    (hW : ∀ w ∈ W, w.length = m) (hs : Covered.expandSlack m slack = some s)
+    (S P : List Nat) (p : Nat) :
+    p ∈ pavebaUseful (rectCov W L U slack) S P ↔
+      (p ∈ P ∧ ∃ c ∈ S,
+        VOPy.C10.Coverable (Covered.box (L c) (U c)) (Covered.box (L p) (U p)) W s) := by
+  rw [paveba_useful_iff]
+  simp only [rectCov_iff W L U slack s m hL hU hm hW hs]
+
+/-- **ε-covering, rectangular regions (VOGP, ε-PAL), real points.**  The slack is `ε·u*` (an
+`m`-vector) or the scalar `ε` (broadcast to every objective); the scan runs over `W = S ∪ P`. -/
+theorem cover_rect_entry_real (W : Mat) (L U : Nat → Vec) (slack s : Vec) (m : Nat)
+    (hL : ∀ k, (L k).length = m) (hU : ∀ k, (U k).length = m) (hm : Covered.ncols W = m)
+    (hW : ∀ w ∈ W, w.length = m) (hs : Covered.expandSlack m slack = some s)
+    (S P : List Nat) (i : Nat) :
+    (i ∈ (epsilonCovering (rectCov W L U slack) S P).2 ∧ i ∉ P) ↔
+      (i ∈ S ∧ i ∉ P ∧ ∀ j, (j ∈ S ∨ j ∈ P) → j ≠ i →
+        ¬ VOPy.C10.Coverable (Covered.box (L i) (U i)) (Covered.box (L j) (U j)) W s) := by
+  rw [cover_new_iff]
+  have h : ∀ j, rectCov W L U slack i j = false ↔
+      ¬ VOPy.C10.Coverable (Covered.box (L i) (U i)) (Covered.box (L j) (U j)) W s := by
+    intro j; rw [← rectCov_iff W L U slack s m hL hU hm hW hs i j]; simp
+  simp only [h]
+
+/-- **ε-covering of VOGP_AD with the depth gate and the latch, rectangular regions, real points.**
+A node enters `P` exactly when the gate is open (latch already on, or every candidate at the maximum
+discretisation depth) and no other active node's box contains a point that ε-dominates a point of
+its box. -/
+theorem coverAD_rect_entry_real (W : Mat) (L U : Nat → Vec) (slack s : Vec) (m : Nat)
+    (hL : ∀ k, (L k).length = m) (hU : ∀ k, (U k).length = m) (hm : Covered.ncols W = m)
+    (hW : ∀ w ∈ W, w.length = m) (hs : Covered.expandSlack m slack = some s)
+    (depth : Nat → Nat) (maxDepth : Nat) (enabled : Bool) (S P : List Nat) (i : Nat) :
+    (i ∈ (epsilonCoveringAD (rectCov W L U slack) depth maxDepth enabled S P).2.1 ∧ i ∉ P) ↔
+      ((enabled = true ∨ ∀ k ∈ S, depth k = maxDepth) ∧ i ∈ S ∧ i ∉ P ∧
+        ∀ j, (j ∈ S ∨ j ∈ P) → j ≠ i →
+          ¬ VOPy.C10.Coverable (Covered.box (L i) (U i)) (Covered.box (L j) (U j)) W s) := by
+  rw [coverAD_new_iff]
+  have h : ∀ j, rectCov W L U slack i j = false ↔
+      ¬ VOPy.C10.Coverable (Covered.box (L i) (U i)) (Covered.box (L j) (U j)) W s := by
+    intro j; rw [← rectCov_iff W L U slack s m hL hU hm hW hs i j]; simp
+  simp only [h]
+
+/-- **P-entry, PaVeBa (balls `B(c_k, a_k)`, `Σ = I`), real points.**  The slack is per facet
+(`ε·α`, one entry per row of `W`, or a scalar repeated; `t` is its expanded form).  A design enters
+`P` exactly when it is a candidate and no other active design's ball contains a point `z'` with
+`w_n·(z' − z) ≥ t_n` on every facet for some point `z` of its own ball. -/
+theorem paveba_ball_entry_real (W : Mat) (c : Nat → Vec) (a : Nat → Rat) (slack t : Vec) (m : Nat)
+    (hc : ∀ k, (c k).length = m) (ha : ∀ k, 0 ≤ a k) (hW : ∀ w ∈ W, w.length = m)
+    (hs : Covered.expandSlack W.length slack = some t) (S P Us : List Nat) (i : Nat) :
+    (i ∈ (pavebaPareto (ballCov W c a slack) S P Us).2 ∧ i ∉ P) ↔
+      (i ∈ S ∧ i ∉ P ∧ ∀ j, (j ∈ S ∨ j ∈ Us) → j ≠ i →
+        ¬ VOPy.C10.CoverableFacet (Covered.ball (c i) (a i)) (Covered.ball (c j) (a j)) W t) := by
+  rw [paveba_pareto_new_iff]
+  have h : ∀ j, ballCov W c a slack i j = false ↔
+      ¬ VOPy.C10.CoverableFacet (Covered.ball (c i) (a i)) (Covered.ball (c j) (a j)) W t := by
+    intro j; rw [← ballCov_iff W c a slack t m hc ha hW hs i j]; simp
+  simp only [h]
+
+/-- **Useful set, PaVeBa balls, real points.** -/
+theorem paveba_ball_useful_real (W : Mat) (c : Nat → Vec) (a : Nat → Rat) (slack t : Vec) (m : Nat)
+    (hc : ∀ k, (c k).length = m) (ha : ∀ k, 0 ≤ a k) (hW : ∀ w ∈ W, w.length = m)
+    (hs : Covered.expandSlack W.length slack = some t) (S P : List Nat) (p : Nat) :
+    p ∈ pavebaUseful (ballCov W c a slack) S P ↔
+      (p ∈ P ∧ ∃ d ∈ S,
+        VOPy.C10.CoverableFacet (Covered.ball (c d) (a d)) (Covered.ball (c p) (a p)) W t) := by
+  rw [paveba_useful_iff]
+  simp only [ballCov_iff W c a slack t m hc ha hW hs]
+
+/-- non-vacuity (rectangles, componentwise order, scalar slack 1/4): boxes `[0,1]²` (design 0),
+`[2,3]²` (design 1) and `[5,6]×[−4,−3]` (design 2 ∈ P, useful so far).  Design 1 can cover design 0
+(`z' = (2,2) ≽ (0,0) + 1/4`), nothing can cover design 1, design 2 is incomparable with both →
+1 enters `P`, 0 stays; `U'` = {1}: design 1 can still cover candidate 0, design 2 cannot. -/
+example :
+    let L : Nat → Vec := fun k => if k = 0 then [0, 0] else if k = 1 then [2, 2] else [5, -4]
+    let U : Nat → Vec := fun k => if k = 0 then [1, 1] else if k = 1 then [3, 3] else [6, -3]
+    pavebaPareto (rectCov [[1, 0], [0, 1]] L U [1/4]) [0, 1] [2] [2] = ([0], [2, 1]) ∧
+    pavebaUseful (rectCov [[1, 0], [0, 1]] L U [1/4]) [0] [2, 1] = [1] := by
+  decide +kernel
+
+/-- non-vacuity (balls of radius 1/2 at (0,0), (2,2); per-facet slack (1/4, 1/4)): the upper ball
+can cover the lower one, not conversely → the upper design enters `P` and stays useful. -/
+example :
+    let c : Nat → Vec := fun k => if k = 0 then [0, 0] else [2, 2]
+    pavebaPareto (ballCov [[1, 0], [0, 1]] c (fun _ => 1/2) [1/4, 1/4]) [0, 1] [] [] = ([0], [1]) ∧
+    pavebaUseful (ballCov [[1, 0], [0, 1]] c (fun _ => 1/2) [1/4, 1/4]) [0] [1] = [1] := by
+  decide +kernel
+
+/-- the hypotheses of the end-to-end theorems are satisfiable: scalar and vector slack forms -/
+example : Covered.expandSlack 2 [1/4] = some [1/4, 1/4] ∧
+    Covered.expandSlack 2 [1/8, 1/4] = some [1/8, 1/4] ∧ Covered.ncols [[1, 0], [0, 1]] = 2 := by
+  decide +kernel
 
 /-! ## State invariants (the hypotheses `S.Nodup`, `S ∩ P = ∅` used above hold in every round) -/
 
